@@ -49,7 +49,7 @@ def close(val, exact, absum, n):
 
 def run(ck, rng, tier):
     ck.prove("Properties_C11")
-    exe = vf.build_driver("drv_kernels")
+    exe = vf.build_driver("drv_kernels", "asan")
     thorough = tier == "thorough"
     shapes = list(itertools.product(range(0, 18), repeat=3))
     if not thorough:
@@ -94,6 +94,8 @@ def run(ck, rng, tier):
         b = [rnd_val(rng, None) for _ in range(n)]
         if rng.random() < 0.2:
             a[rng.randrange(m)] = MISSING
+        if rng.random() < 0.2:
+            b[rng.randrange(n)] = MISSING
         inp.append("outer %s %s" % (vf.fmt_vec(a), vf.fmt_vec(b)))
         meta.append(("outer", (m, n), a, b))
         M = rmat(rng, m, n, rng.choice((None, 0, 3)))
@@ -180,11 +182,12 @@ def run(ck, rng, tier):
         elif kind == "outer":
             _, (m, n), a, b = mt
             checks.add(i, "outer", "mchk (outer %s %s) %s" % (cv(a), cv(b), cm(o["m"])))
-            if MISSING not in a:
-                if not all(o["m"][x][y] == a[x] * b[y] for x in range(m) for y in range(n)):
-                    direct_fail[i] = ("RowColOuterProduct", "value", "entry != a_i*b_j")
-                if "m2" in o and MISSING not in b and not all(o["m2"][x][y] == a[x] * b[y] for x in range(m) for y in range(n)):
-                    direct_fail[i] = ("DVectorTrasposedDVectorDotProduct", "value", "entry != a_i*b_j")
+            exp = [[MISSING if (a[x] == MISSING or b[y] == MISSING) else a[x] * b[y] for y in range(n)] for x in range(m)]
+            if not all(o["m"][x][y] == exp[x][y] for x in range(m) for y in range(n)):
+                direct_fail[i] = ("RowColOuterProduct", "value", "entry != a_i*b_j (MISSING where an operand is missing)")
+            if not all(o["m2"][x][y] == exp[x][y] for x in range(m) for y in range(n)):
+                direct_fail[i] = ("DVectorTrasposedDVectorDotProduct", "value", "entry != a_i*b_j (MISSING where an operand is missing), shape %dx%d" % (m, n))
+            checks.add(i, "outer2", "mchk (outer %s %s) %s" % (cv(a), cv(b), cm(o["m2"])))
         elif kind == "unary":
             _, (m, n), M = mt
             checks.add(i, "transpose", "mchk (transpose %d %s) %s" % (n, cm(M), cm(o["transpose"])))
@@ -240,7 +243,8 @@ def run(ck, rng, tier):
             checks.add(i, "vdot", "fchk (vdot %s %s) %s" % (cv(a), cv(b), vf.coq_f(o["dot"])))
             checks.add(i, "vmodule", "fchk (vmodule %s) %s" % (cv(a), vf.coq_f(o["module"])))
             checks.add(i, "vnormalize", "vchk (vnormalize %s) %s" % (cv(a), cv(o["normalized"])))
-            ex, ab = exact_dot(a, b)
+            keep = [(x, y) for x, y in zip(a, b) if x != MISSING and y != MISSING]    # pairs with a missing operand are skipped
+            ex, ab = exact_dot([x for x, _ in keep], [y for _, y in keep])
             if not close(o["dot"], ex, ab, n):
                 direct_fail[i] = ("DVectorDVectorDotProd", "value", "dot product mismatch")
         elif kind == "tensor":
